@@ -6,8 +6,8 @@ The harness is compiled once per allocator kind (and for two kinds additionally 
 import json, os, re, subprocess, concurrent.futures
 import vlib, C10_syms
 
-ORGS = ["rgb8", "rgb8p", "gray16", "rgb565", "gray1", "elem"]
-VMAX = {"rgb8": 200, "rgb8p": 200, "gray16": 200, "rgb565": 31, "gray1": 1, "elem": 200}
+ORGS = ["rgb8", "rgb8p", "gray16", "rgb565", "gray1", "elem", "elemp"]
+VMAX = {"elemp": 200, "rgb8": 200, "rgb8p": 200, "gray16": 200, "rgb565": 31, "gray1": 1, "elem": 200}
 PARTNER = {"rgb8", "rgb8p"}
 ALLOCS = ["se", "sf00", "sf01", "sf10", "sf11", "pmr"]
 POCS = {"sf01", "sf11"}
@@ -37,7 +37,7 @@ def directed(mc):
     for alloc in ALLOCS:
         # move assignment into a NON-EMPTY target between unequal allocator instances, every allocator kind (propagating: the target's old
         # block must be released through the target's own allocator before the source's allocator is adopted), also chained and with an empty source
-        for org in ("rgb8", "elem", "gray1"):
+        for org in ("rgb8", "elem", "gray1", "elemp"):
             h("dbg", org, alloc, 0, 0, "dims 0 1 0 3 2 1", "dims 1 2 0 4 4 1", "massign 0 1", "write 0 1 1 0", "dims 2 0 8 2 2 1", "massign 2 0", "massign 1 2", "destroy 1")
             h("dbg", org, alloc, 0, 0, "dims 0 2 4 5 3 1", "dflt 1 1 0", "massign 0 1", "dims 2 0 0 1 1 0", "massign 1 2", "massign 2 0")
             h("dbg", org, alloc, 0, 0, "dims 0 1 0 3 2 1", "dims 1 2 0 4 4 0", "move 2 1", "massign 0 2", "massign 2 0", "swap 0 0")
@@ -47,6 +47,12 @@ def directed(mc):
         # reuse branch + throwing element construction
         h("dbg", "elem", alloc, 0, 7, "fill 0 0 0 3 2 5", "rec 0 1 1 0 2")
         h("dbg", "elem", alloc, 0, 9, "fill 0 0 0 3 2 5", "recf 0 2 2 4 0", "destroy 0")
+        # planar image of a non-trivial channel type: throw in the 2nd plane of a fill / copy / default construction (planar roll-backs), 1-D and padded rows
+        h("dbg", "elemp", alloc, 0, 9, "fill 0 0 0 3 2 5", "copy 1 0", "destroy 0")
+        h("dbg", "elemp", alloc, 0, 26, "fill 0 0 0 3 2 5", "copy 1 0", "destroy 0")
+        h("dbg", "elemp", alloc, 0, 8, "dims 0 0 16 3 2 5", "copy 1 0", "destroy 0")
+        h("dbg", "elemp", alloc, 0, 25, "fill 0 0 16 3 2 5", "fromview 1 0 0 0", "destroy 0")
+        h("dbg", "elemp", alloc, 0, 22, "fill 0 0 0 3 2 5", "recf 0 2 2 4 0", "destroy 0")
         h("dbg", "elem", alloc, 0, 0, "dims 0 0 0 3 2 7", "dims 1 0 0 4 4 1", "massign 0 1", "massign 1 0")
         # swap: equal instances exchange everything; unequal instances: propagate_on_container_swap exchanges the allocators too, otherwise the
         # contract (BOOST_ASSERT(_alloc == img._alloc)) is violated by the caller and diagnosed in this debug build
